@@ -175,13 +175,14 @@ func zzC15bPong() {
 	vf.Reach("end")
 }
 
-// C15.a: keepalive control flow on the virtual clock, for every interval/timeout pair in range.
+// C15.a: keepalive control flow on the virtual clock, for every interval/timeout pair in range
+// (the timeout may be shorter or longer than the interval) and every pong delay below the timeout.
 func zzC15aKeepAlive() {
 	tr := ZZNewFakeTransport()
 	c := ZZNewClientConn(tr, nil)
 	iv := time.Duration(vf.I64("interval"))
 	to := time.Duration(vf.I64("timeout"))
-	vf.Assume(to >= 2 && to < iv && iv <= 200*time.Millisecond)
+	vf.Assume(to >= 2 && to <= 200*time.Millisecond && iv >= 2 && iv <= 200*time.Millisecond)
 	c.pingInterval = iv
 	c.pingTimeout = to
 	go c.readRequestLoop()
@@ -209,23 +210,22 @@ func zzC15aKeepAlive() {
 			return
 		}
 		vf.Assert("ping-id-even", uint32(ps[k].RequestID)%2 == 0)
-		// the pong arrives after an arbitrary delay below the timeout
+		// the pong arrives after an arbitrary delay below the timeout (possibly longer than the interval)
 		delay := time.Duration(vf.I64("delay" + string(rune('0'+k))))
 		vf.Assume(delay >= 0 && delay < to)
 		vf.Advance(delay)
+		vf.Assert("live-peer-not-dropped-while-waiting", !done && tr.CloseCount == 0)
 		c.msgRequestCh <- &message.Pong{RequestID: ps[k].RequestID}
 		vf.Settle()
 		vf.Assert("live-peer-never-dropped", !done && tr.CloseCount == 0)
-		// nothing more is sent before the interval (counted from the previous tick) has elapsed
-		vf.Advance(iv - delay - 1)
-		vf.Assert("no-ping-before-interval", len(pings()) == k+1 && !done)
-		vf.Advance(1)
+		// move on until the next ping is on the wire (at most one interval from now)
+		if len(pings()) == k+1 {
+			vf.Advance(iv)
+		}
+		vf.Assert("next-ping-within-an-interval", len(pings()) >= k+2 && !done)
 	}
 	ps := pings()
-	vf.Assert("next-ping-sent", len(ps) == answers+1)
-	if len(ps) != answers+1 {
-		return
-	}
+	vf.Assume(len(ps) == answers+1)
 	// silence: just before the timeout nothing happens, at the timeout the connection is given up
 	vf.Advance(to - 1)
 	vf.Assert("not-dropped-before-timeout", !done && tr.CloseCount == 0)
